@@ -78,6 +78,10 @@ type eventOwner struct {
 	consumers int32
 
 	last lib.QueueMPSC
+	// lock orders a publication (push into 'last' + reading the subscribers)
+	// against a new subscription (registration + hand-over of 'last'), so that a
+	// subscriber never gets the same message both ways
+	lock sync.Mutex
 }
 
 func createTargetManager(tm gen.TargetManager) gen.TargetManager {
